@@ -26,8 +26,13 @@ class C12(PropertyCheck):
     nontrivial_rule = (
         "a case = (mask, anisotropic scales, origin o, shift d != 0, sub size, kernel); every public "
         "entry point of the property's observe_at list is evaluated at o and at o+d; distinct = distinct "
-        "case inputs; non-trivial = d has a non-zero component and the mask has masked and unmasked pixels"
+        "case inputs; non-trivial = d has a non-zero component and the mask has masked and unmasked pixels; "
+        "history cases (group=history) = a script of >= 2 operations on reused library objects, every observation "
+        "judged against freshly built objects, numpy closed forms, the translation relation and the model; large "
+        "cases (large=true, only when the anchored source gained an integer constant) = recipes judged by the relation alone"
     )
+    # loop ties (DESIGN §12): regenerated from the source on every run, tie theorems proved for all sizes
+    loop_tie_modules = ["LoopsEntry"]
     modelled_functions = [
         "autoarray/geometry/geometry_util.py:central_pixel_coordinates_2d_from",
         "autoarray/geometry/geometry_util.py:central_scaled_coordinate_2d_from",
@@ -62,6 +67,8 @@ class C12(PropertyCheck):
         "autoarray/structures/mesh/triangulation_2d.py:Abstract2DMeshTriangulation.delaunay",
     ]
     trusted_extra = [
+        "large-stream cases (sizes around new integer constants of the source) are judged by the numpy statement of the "
+        "translation relation only, not compared with the Lean model",
         "scipy.interpolate.griddata / Qhull inside image_mesh.Hilbert is not modelled (only the placement of its grids)",
         "float rounding of translated coordinates (inputs are dyadic so translations are exact; tolerance 1e-9)",
     ]
@@ -144,6 +151,9 @@ class C12(PropertyCheck):
         yield {"tag": "hilbert_masked_adapt", "group": "hilbert", "n": 21, "scale": "1/4",
                "radius": "2", "origin": ["0", "0"], "shift": ["3/4", "-5/4"], "pixels": 10,
                "masked_adapt": True}
+        # history stream (DESIGN §13): reuse histories on real shared objects; after the ordinary streams, so their
+        # PRNG consumption (and thus the cases of earlier rounds) is unchanged
+        yield from self._histories(tier, rng)
 
     @staticmethod
     def _overlay_shape_without_ties(rng, m):
@@ -162,7 +172,8 @@ class C12(PropertyCheck):
 
     # ------------------------------------------------------------------ implementation
     def _mask(self, aa, case, origin):
-        return aa.Mask2D(mask=mask_from_json(case["mask"]),
+        arr = case["_mask_np"] if case.get("_mask_np") is not None else mask_from_json(case["mask"])
+        return aa.Mask2D(mask=arr,
                          pixel_scales=(F(case["scales"][0]), F(case["scales"][1])), origin=origin)
 
     def _entries_geometry(self, aa, case, origin, shift):
@@ -191,6 +202,14 @@ class C12(PropertyCheck):
         put("over_sampled", "coord", lambda: grid(aa.OverSamplerUniform(mask=m, sub_size=sub).over_sampled_grid))
         put("border_sub_grid", "coord", lambda: grid(aa.BorderRelocator(mask=m, sub_size=sub).sub_grid))
         put("sub_border_grid", "coord", lambda: grid(aa.BorderRelocator(mask=m, sub_size=sub).sub_border_grid))
+        if case.get("sub_runs"):
+            # per-pixel sub-size map (run-length coded, odd and even sizes mixed): OverSamplerUniform / BorderRelocator
+            # take an Array2D of sizes
+            def sub_map():
+                sizes = np.concatenate([np.full(int(n), int(sv)) for n, sv in case["sub_runs"]])
+                return aa.Array2D(values=sizes[: m.pixels_in_mask].astype("int"), mask=m)
+            put("over_sampled_map", "coord", lambda: grid(aa.OverSamplerUniform(mask=m, sub_size=sub_map()).over_sampled_grid))
+            put("border_sub_grid_map", "coord", lambda: grid(aa.BorderRelocator(mask=m, sub_size=sub_map()).sub_grid))
         put("mask_centre", "coord", lambda: [list(map(float, m.mask_centre))])
         put("extent", "extent", lambda: list(map(float, m.geometry.extent)))
         put("scaled_minmax", "coord", lambda: [list(map(float, m.geometry.scaled_minima)),
@@ -222,10 +241,14 @@ class C12(PropertyCheck):
             ov = aa.image_mesh.Overlay(shape=tuple(case["overlay"]))
             put("overlay_mesh", "coord", lambda: grid(ov.image_plane_mesh_grid_from(mask=m, adapt_data=None)))
         # index-valued results at translated points
-        pts = [(F(a) + shift[0], F(b) + shift[1]) for a, b in case["points"]]
+        if case.get("_points_np") is not None:  # large stream: points expanded from the recipe (relative to o)
+            pts = [tuple(p) for p in (np.asarray(case["_points_np"], dtype=float) + np.asarray(shift, dtype=float)).tolist()]
+        else:
+            pts = [(F(a) + shift[0], F(b) + shift[1]) for a, b in case["points"]]
         put("pixel_coordinates", "inv", lambda: [list(map(int, m.geometry.pixel_coordinates_2d_from(
-            scaled_coordinates_2d=p))) for p in pts])
-        gi = aa.Grid2D.no_mask(values=np.array(pts, dtype=float).reshape(2, 2, 2), pixel_scales=1.0)
+            scaled_coordinates_2d=p))) for p in pts[:2000]])
+        gi = aa.Grid2D.no_mask(values=np.array(pts, dtype=float).reshape((2, 2, 2) if len(pts) == 4 else (-1, 1, 2)),
+                               pixel_scales=1.0)
         put("grid_pixel_indexes", "inv", lambda: [int(v) for v in np.asarray(
             m.geometry.grid_pixel_indexes_2d_from(grid_scaled_2d=gi))])
         put("grid_pixel_centres", "inv", lambda: np.asarray(
@@ -233,7 +256,11 @@ class C12(PropertyCheck):
         put("grid_pixels", "inv", lambda: np.asarray(
             m.geometry.grid_pixels_2d_from(grid_scaled_2d=gi), dtype=float).reshape(-1, 2).tolist())
         # count-valued: mesh points per image pixel (points = the off-boundary query points)
-        gm = aa.Grid2DIrregular(values=[(F(a) + shift[0], F(b) + shift[1]) for a, b in case["mesh_points"]])
+        if case.get("_mesh_points_np") is not None:
+            gm = aa.Grid2DIrregular(values=[tuple(p) for p in (np.asarray(case["_mesh_points_np"], dtype=float)
+                                                               + np.asarray(shift, dtype=float)).tolist()])
+        else:
+            gm = aa.Grid2DIrregular(values=[(F(a) + shift[0], F(b) + shift[1]) for a, b in case["mesh_points"]])
         put("mesh_pixels_per_image_pixels", "inv", lambda: np.asarray(
             aa.image_mesh.Overlay(shape=(3, 3)).mesh_pixels_per_image_pixels_from(mask=m, mesh_grid=gm).native.array,
             dtype=float).ravel().tolist())
@@ -341,8 +368,11 @@ class C12(PropertyCheck):
         put("mapper_rectangular", "inv", rect)
 
         def dela():
-            nv = 7
-            vr = np.round(rs.uniform(-1, 1, size=(nv, 2)) * 64) / 64
+            nv = int(case.get("nv", 7))
+            # vertices on a 1/64 lattice (exact translations); thousands of vertices (large stream) would collide /
+            # be cocircular on that lattice (Qhull tie-breaking is origin dependent, cf. D10h): finer lattice there
+            res = 64 if nv <= 50 else 2 ** 30
+            vr = np.round(rs.uniform(-1, 1, size=(nv, 2)) * res) / res
             ext = np.abs(src_rel).max(axis=0) * 1.2 + 0.1
             verts = vr * ext + np.array(origin)
             mesh = aa.Mesh2DDelaunay(values=verts)
@@ -354,9 +384,10 @@ class C12(PropertyCheck):
 
     def _entries_hilbert(self, aa, case, origin, shift):
         n = case["n"]
+        n2 = int(case.get("n2", n))
         s = F(case["scale"])
-        m = aa.Mask2D.circular(shape_native=(n, n), radius=F(case["radius"]), pixel_scales=s, origin=origin)
-        yy, xx = np.mgrid[0:n, 0:n]
+        m = aa.Mask2D.circular(shape_native=(n, n2), radius=F(case["radius"]), pixel_scales=s, origin=origin)
+        yy, xx = np.mgrid[0:n, 0:n2]
         img = 1.0 + 0.25 * yy + 0.5 * xx
         if case["masked_adapt"]:
             adapt = aa.Array2D(values=img, mask=m)
@@ -379,12 +410,1168 @@ class C12(PropertyCheck):
 
     def run_impl(self, case):
         aa = load_autoarray()
+        if case.get("group") == "history":
+            return self._run_history(aa, case)
         o = (F(case["origin"][0]), F(case["origin"][1]))
         d = (F(case["shift"][0]), F(case["shift"][1]))
         od = (o[0] + d[0], o[1] + d[1])
         fn = {"geometry": self._entries_geometry, "dataset": self._entries_dataset,
               "mapper": self._entries_mapper, "hilbert": self._entries_hilbert}[case["group"]]
+        if case.get("large"):
+            full_case = self._expand_large(case)
+            full = {"at_o": fn(aa, full_case, o, (0.0, 0.0)), "at_od": fn(aa, full_case, od, d)}
+            return self._summarise_large(full_case, full, np.array(d))
         return {"at_o": fn(aa, case, o, (0.0, 0.0)), "at_od": fn(aa, case, od, d)}
+
+    # ------------------------------------------------------------------ large stream (DESIGN §13, size-gated paths)
+    # A large case is a compact RECIPE (shape, mask family, counts, seed): the mask / point arrays are expanded
+    # deterministically at run time, so replay files and evidence stay small.  No model comparison
+    # (`model_requests` returns []): the oracle alone judges, by the metamorphic relation `_relation` evaluated
+    # with numpy on the full arrays inside run_impl; the observation keeps a per-entry summary and the verdict.
+    LARGE_BUDGET_S = 36.0
+
+    @staticmethod
+    def _large_mask(rec):
+        h, w = rec["shape"]
+        mg = int(rec.get("margin", 2))
+        yy, xx = np.mgrid[0:h, 0:w]
+        holes = ((yy * 7 + xx * 3) % 13 == 0)
+        if rec["family"] == "count":
+            # exactly rec["unmasked"] unmasked pixels: inner region in row-major order, leaving the hole pattern out
+            inner = np.zeros((h, w), dtype=bool)
+            inner[mg:h - mg, mg:w - mg] = True
+            cand = np.flatnonzero((inner & ~holes).ravel())
+            m = np.ones(h * w, dtype=bool)
+            m[cand[: int(rec["unmasked"])]] = False
+            return m.reshape(h, w)
+        if rec["family"] == "block":
+            # small block with odd spans (overlay meshes then have no point on a pixel boundary), one hole inside
+            m = np.ones((h, w), dtype=bool)
+            y0, x0, bh, bw = rec["block"]
+            m[y0:y0 + bh, x0:x0 + bw] = False
+            if bh >= 3 and bw >= 3:
+                m[y0 + 1, x0 + bw // 2] = True
+            return m
+        # "blob": off-centre elliptical annulus with a hole pattern, about rec["unmasked"] unmasked pixels
+        n = max(4.0, float(rec.get("unmasked", 600)))
+        b = (n / (np.pi * 0.8 * 0.8775 * 0.92)) ** 0.5
+        a = 0.8 * b
+        a = max(1.5, min(a, h / 2.0 - mg - 2.5))
+        b = max(1.5, min(b, w / 2.0 - mg - 3.0))
+        cy, cx = h / 2.0 - 1.5, w / 2.0 + 2.0
+        if h < 12 or w < 12:
+            cy, cx = h / 2.0 - 0.5, w / 2.0
+        r = np.hypot((yy - cy) / a, (xx - cx) / b)
+        m = (r > 1.0) | (r < 0.35) | holes
+        if mg:
+            m[:mg] = True
+            m[-mg:] = True
+            m[:, :mg] = True
+            m[:, -mg:] = True
+        if m.all():
+            m[h // 2, w // 2] = False
+        return m
+
+    def _expand_large(self, case):
+        c = dict(case)
+        rec = case.get("recipe")
+        if rec is None:
+            return c
+        m = self._large_mask(rec)
+        h, w = m.shape
+        c["_mask_np"] = m
+        c["mask"] = {"h": h, "w": w, "bits": None}
+        if case["group"] == "geometry":
+            sy, sx = F(case["scales"][0]), F(case["scales"][1])
+            oy, ox = F(case["origin"][0]), F(case["origin"][1])
+            rs = np.random.RandomState(int(rec.get("seed", 0)) % (2 ** 31))
+
+            def points(n):
+                # strictly inside the frame and off every pixel boundary (quarter / half / three-quarter positions:
+                # exact doubles for the dyadic scales used)
+                i, j = rs.randint(0, h, n), rs.randint(0, w, n)
+                fi, fj = rs.choice([0.25, 0.5, 0.75], n), rs.choice([0.25, 0.5, 0.75], n)
+                return np.stack([oy + (h / 2.0 - (i + fi)) * sy, ox + ((j + fj) - w / 2.0) * sx], axis=1)
+            c["_points_np"] = points(int(rec.get("n_points", 4)))
+            c["_mesh_points_np"] = points(int(rec.get("n_mesh_points", 6)))
+        return c
+
+    def _summarise_large(self, case, full, d):
+        holds, detail = self._relation(case, full["at_o"], full["at_od"], d)
+        import hashlib
+        import json as _json
+        ent = {}
+        for name, e0 in full["at_o"].items():
+            e1 = full["at_od"].get(name, {})
+
+            def head(v):
+                if isinstance(v, dict):
+                    return {k: head(x) for k, x in v.items() if k not in ("src",)}
+                if isinstance(v, list):
+                    return v[:2] if not (v and isinstance(v[0], list) and len(v[0]) > 6) else [r[:4] for r in v[:2]]
+                if isinstance(v, str):
+                    return v[:40]
+                return v
+
+            def size(v):
+                if isinstance(v, dict):
+                    return {k: size(x) for k, x in v.items()}
+                return len(v) if isinstance(v, (list, str)) else 1
+            ent[name] = {"kind": e0["kind"], "err_o": e0.get("err"), "err_od": e1.get("err"),
+                         "size_o": size(e0.get("value")), "size_od": size(e1.get("value")),
+                         "head_o": head(e0.get("value")), "head_od": head(e1.get("value"))}
+        sha = hashlib.sha1(_json.dumps(full, sort_keys=True, default=str).encode()).hexdigest()[:16]
+        return {"large": True, "unmasked": int((~case["_mask_np"]).sum()) if case.get("_mask_np") is not None else None,
+                "entries": ent, "sha": sha, "relation": {"holds": bool(holds), "detail": detail}}
+
+    @staticmethod
+    def _factor(t, odd=False, min_side=3, max_aspect=8):
+        """(h, w), h <= w, h*w == t, h != w preferred (non-square), both odd if `odd`; None when t has no such
+        factorisation"""
+        best = None
+        h = int(t ** 0.5)
+        while h >= min_side:
+            if t % h == 0:
+                w = t // h
+                if w > max_aspect * h:
+                    break
+                if not (odd and (h % 2 == 0 or w % 2 == 0)):
+                    if h != w:
+                        return (h, w)
+                    best = best or (h, w)
+            h -= 1
+        return best
+
+    def _shape_for(self, t, how, odd=False, min_side=3):
+        """frame / kernel / mesh shape whose pixel count is t exactly (`how`="eq"; None if t has no usable
+        factorisation), the largest such count <= t ("le") or the smallest >= t ("ge")"""
+        if how == "eq":
+            return self._factor(t, odd, min_side)
+        step = -1 if how == "le" else 1
+        for k in range(0, max(40, t // 20)):
+            tt = t + step * k
+            if tt < min_side * min_side:
+                break
+            f = self._factor(tt, odd, min_side)
+            if f:
+                return f
+        return None
+
+    @staticmethod
+    def _large_sizes(c):
+        """(size, how): a non-multiple above the constant, just above, at, just below, 2c+1"""
+        return [(c + c // 3 + 1, "ge"), (c + 1, "ge"), (c, "eq"), (c - 1, "le"), (2 * c + 1, "ge")]
+
+    def generate_large(self, hints, rng):
+        """cases whose sizes straddle each new integer constant of the anchored source, in every size dimension
+        C12's code loops over: frame pixels H*W (non-square), unmasked pixels, total sub-pixels (uniform sub size
+        and per-pixel sub-size maps), kernel pixels (padded / blurring footprint), query points and mesh points,
+        resized frame, overlay image-mesh pixels, rectangular-mesh pixels / Delaunay vertices, data sub-pixels of a
+        mapper, dataset frames, Hilbert frame / mesh pixels.  All with anisotropic scales, an origin and a shift
+        with both components non-zero.  Bounded by an estimated cost (pure Python loops: ~1.5e-5 s per frame
+        pixel + ~1.4e-4 s per unmasked pixel and origin): hints too large for the budget are skipped."""
+        hints = [int(c) for c in hints if 8 <= int(c)]
+        if not hints:
+            return
+        per_hint = self.LARGE_BUDGET_S / len(hints)
+        # sizes in order of value (above the constant first: those are the ones a gated path takes; "at" and
+        # "below" locate the boundary), dimensions in order of how often a gate is written on them; a case whose
+        # estimated cost does not fit what is left of the hint's share is skipped (so infeasible sizes drop out)
+        dims = ("frame", "unmasked", "sub_pixels", "ds_frame", "kernel", "points", "mesh", "overlay", "resize",
+                "mapper_sub", "sub_map", "hilbert_frame", "hilbert_pixels", "ds_unmasked")
+        for c in sorted(hints):
+            spent = 0.0
+            for k_size in (0, 1, 2, 4, 3):
+                for dim in dims:
+                    t, how = self._large_sizes(c)[k_size]
+                    case, cost = self._large_case(dim, c, t, how, rng)
+                    if case is None or cost > 0.3 * per_hint or spent + cost > per_hint:
+                        continue
+                    spent += cost
+                    yield case
+
+    def _large_common(self, rng):
+        sy, sx = gen.scales_pair(rng)
+        while sx == sy:
+            sy, sx = gen.scales_pair(rng)
+        oy, ox = gen.origin_pair(rng)
+        oy = oy or Fraction(3, 8)
+        ox = ox or Fraction(-5, 4)
+        dy, dx = gen.dyadic(rng, -3, 3, 2), gen.dyadic(rng, -3, 3, 2)
+        dy = dy or Fraction(9, 4)
+        dx = dx or Fraction(-7, 2)
+        return {"scales": [q(sy), q(sx)], "origin": [q(oy), q(ox)], "shift": [q(dy), q(dx)], "large": True}
+
+    def _large_case(self, dim, c, t, how, rng):
+        """(case, estimated cost in s) or (None, 0)"""
+        def cost(frame, unmasked, sub=2):
+            return 0.1 + 2 * (1.5e-5 * frame + 2.0e-4 * unmasked * (1 + sub * sub / 20.0) * (1 + unmasked / 60000.0))
+
+        def flip(hw):
+            return [hw[1], hw[0]] if rng.random() < 0.5 else [hw[0], hw[1]]
+        base = self._large_common(rng)
+        base["hint"] = c
+        base["dim"] = dim
+        seed = rng.randint(0, 10 ** 6)
+        geo = {"group": "geometry", "sub": rng.randint(2, 3), "kernel": [3, 5] if rng.random() < 0.5 else [5, 3],
+               "overlay": None, "angle": rng.choice([0, 30, 45, 90, 120])}
+        if dim == "frame":
+            hw = self._shape_for(t, how, min_side=7)
+            if not hw:
+                return None, 0
+            hw = flip(hw)
+            un = min(1200, max(6, hw[0] * hw[1] // 5))
+            rec = {"family": "blob", "shape": hw, "unmasked": un, "margin": 2, "seed": seed}
+            case = {**base, **geo, "tag": "large_frame", "recipe": rec,
+                    "resize_to": [hw[0] + rng.choice([-2, 2, 3]), hw[1] + rng.choice([-2, 1, 2])]}
+            return case, cost(hw[0] * hw[1], un, geo["sub"])
+        if dim in ("unmasked", "sub_pixels", "sub_map"):
+            sub = geo["sub"]
+            runs = None
+            if dim == "unmasked":
+                n = t
+            elif dim == "sub_pixels":
+                # uniform sub size: unmasked * sub^2 straddles t (exactly t when sub^2 divides it)
+                sub = rng.choice([s_ for s_ in (2, 3, 4) if t % (s_ * s_) == 0] or [2])
+                n = -(-t // (sub * sub)) if how == "ge" else t // (sub * sub)
+                if how == "eq" and n * sub * sub != t:
+                    return None, 0
+            else:
+                # per-pixel sub sizes (odd and even mixed) whose squares sum to exactly t: 9a + 4b + 25e + 1*rest
+                a = t // 27
+                e = t // 100
+                b = (t - 9 * a - 25 * e) // 8
+                rest = t - 9 * a - 4 * b - 25 * e
+                runs = [[a, 3], [b, 2], [e, 5], [rest, 1]]
+                n = a + b + e + rest
+            if n < 2:
+                return None, 0
+            inner = int(n * 13 / 12 * 1.08) + 8
+            hw = self._shape_for(max(25, inner), "ge", min_side=4)
+            hw = flip([hw[0] + 4, hw[1] + 4])
+            rec = {"family": "count", "shape": hw, "unmasked": n, "margin": 2, "seed": seed}
+            case = {**base, **geo, "sub": sub, "tag": f"large_{dim}", "recipe": rec,
+                    "resize_to": [hw[0] + 2, hw[1] + 3]}
+            if runs:
+                case["sub_runs"] = runs
+            return case, cost(hw[0] * hw[1], n, sub) + (1.0e-5 * t if runs else 0)
+        if dim == "kernel":
+            k = self._shape_for(t, "le" if how in ("le", "eq") else "ge", odd=True, min_side=3)
+            if not k:
+                return None, 0
+            k = flip(k)
+            hw = [k[0] + 6, k[1] + 7]
+            rec = {"family": "block", "shape": hw, "block": [hw[0] // 2 - 1, hw[1] // 2 - 1, 3, 3], "seed": seed}
+            case = {**base, **geo, "kernel": k, "tag": "large_kernel", "recipe": rec,
+                    "resize_to": [hw[0] + 2, hw[1] + 1]}
+            return case, cost(hw[0] * hw[1] * 2, 8) + 1e-5 * t * 8
+        if dim == "points":
+            hw = flip([9, 11])
+            rec = {"family": "blob", "shape": hw, "unmasked": 30, "margin": 1, "seed": seed, "n_points": t,
+                   "n_mesh_points": t + 2}
+            case = {**base, **geo, "kernel": [3, 3], "tag": "large_points", "recipe": rec, "resize_to": [11, 12]}
+            return case, 0.1 + 2 * 2.0e-5 * t
+        if dim == "resize":
+            hw2 = self._shape_for(t, how, min_side=5)
+            if not hw2:
+                return None, 0
+            hw = flip([9, 12])
+            rec = {"family": "blob", "shape": hw, "unmasked": 30, "margin": 1, "seed": seed}
+            case = {**base, **geo, "kernel": [3, 3], "tag": "large_resize", "recipe": rec, "resize_to": flip(hw2)}
+            return case, 0.05 + 2 * 0.5e-5 * t
+        if dim == "overlay":
+            ov = self._shape_for(t, how, min_side=2)
+            if not ov:
+                return None, 0
+            hw = [13, 14]
+            rec = {"family": "block", "shape": hw, "block": [2, 3, 7, 9], "seed": seed}
+            case = {**base, **geo, "kernel": [3, 3], "overlay": flip(ov), "tag": "large_overlay", "recipe": rec,
+                    "resize_to": [15, 15]}
+            return case, 0.1 + 2 * 1.0e-5 * t
+        if dim == "mesh":
+            ms = self._shape_for(t, how, min_side=2)
+            if not ms or t > 60000:
+                return None, 0
+            hw = flip([7, 8])
+            rec = {"family": "blob", "shape": hw, "unmasked": 14, "margin": 1, "seed": seed}
+            case = {**base, "group": "mapper", "tag": "large_mesh", "recipe": rec, "sub": rng.randint(1, 2),
+                    "mesh": flip(ms), "nv": t, "seed": seed}
+            return case, 0.1 + 2 * 2.0e-5 * t
+        if dim == "mapper_sub":
+            sub = rng.choice([2, 3])
+            n = -(-t // (sub * sub)) if how == "ge" else t // (sub * sub)
+            if n < 2 or (how == "eq" and n * sub * sub != t) or t > 60000:
+                return None, 0
+            inner = int(n * 13 / 12 * 1.08) + 8
+            hw = self._shape_for(max(25, inner), "ge", min_side=4)
+            hw = flip([hw[0] + 2, hw[1] + 2])
+            rec = {"family": "count", "shape": hw, "unmasked": n, "margin": 1, "seed": seed}
+            case = {**base, "group": "mapper", "tag": "large_mapper_sub", "recipe": rec, "sub": sub,
+                    "mesh": [rng.randint(3, 4), rng.randint(3, 5)], "seed": seed}
+            return case, 0.1 + 2 * 4.0e-5 * t
+        if dim in ("ds_frame", "ds_unmasked"):
+            if dim == "ds_frame":
+                hw = self._shape_for(t, how, min_side=7)
+                if not hw:
+                    return None, 0
+                hw = flip(hw)
+                un = min(400, max(6, hw[0] * hw[1] // 6))
+                rec = {"family": "blob", "shape": hw, "unmasked": un, "margin": 2, "seed": seed}
+            else:
+                un = t
+                inner = int(un * 13 / 12 * 1.08) + 8
+                hw = self._shape_for(max(25, inner), "ge", min_side=4)
+                hw = flip([hw[0] + 4, hw[1] + 4])
+                rec = {"family": "count", "shape": hw, "unmasked": un, "margin": 2, "seed": seed}
+            case = {**base, "group": "dataset", "tag": f"large_{dim}", "recipe": rec, "seed": seed}
+            return case, 0.2 + 2 * (6.0e-5 * hw[0] * hw[1] + 2.5e-4 * un)
+        if dim in ("hilbert_frame", "hilbert_pixels"):
+            s = rng.choice([Fraction(1, 4), Fraction(1, 2)])
+            if dim == "hilbert_frame":
+                # square frames only: the Hilbert curve grid of `image_and_grid_from` is defined for square frames
+                # (a non-square frame raises ValueError inside scipy's griddata on the unchanged tree)
+                import math
+                n = math.isqrt(t)
+                if how == "ge" and n * n < t:
+                    n += 1
+                if how == "eq" and n * n != t:
+                    return None, 0
+                n2 = n
+                if n < 15 or t > 40000:
+                    return None, 0
+                px = rng.randint(8, 20)
+            else:
+                n, n2, px = 21, 21, t
+                if t > 20000:
+                    return None, 0
+            case = {"tag": f"large_{dim}", "group": "hilbert", "large": True, "hint": c, "dim": dim,
+                    "n": n, "n2": n2, "scale": q(s), "radius": q(s * (min(n, n2) // 2 - 2)),
+                    "origin": base["origin"], "shift": base["shift"], "pixels": px, "masked_adapt": False,
+                    "settings_checks": bool(seed % 2)}
+            return case, 0.3 + 2 * (4.0e-5 * n * n2 + 3.0e-5 * px)
+        return None, 0
+
+    # ------------------------------------------------------------------ history stream (DESIGN §13, reuse histories)
+    # A history case runs a short typed script on REAL reused library objects (`_Session`, persist=True): one
+    # Mask2D / Grid2D / OverSamplerUniform / BorderRelocator / Imaging per world kept for the whole history,
+    # configuration objects (OverSamplingUniform, OverSamplingDataset, Kernel2D psf, image_mesh.Overlay,
+    # SimulatorImaging, the caller's numpy arrays) shared between the worlds named in case["share"].  Every
+    # observation is compared with (1) the same entries of FRESHLY built objects in that world's current state
+    # (oracle), (2) numpy closed forms of the pixel-centre / sub-pixel grids (oracle), (3) the translation
+    # relation against every other observation of the same mask content at another origin (oracle), (4) the Lean
+    # model's `c12.entries` value for that state (correspondence).
+    HIST_GEOM = ["from_mask", "all_false", "unmasked", "edge", "border", "blurring", "padded", "over_sampled",
+                 "over_sampled_cfg", "over_sampled_cfg2", "border_sub_grid", "sub_border_grid", "mask_centre",
+                 "extent", "scaled_minmax", "zoom_mask_unmasked", "zoomed_around_mask", "resized",
+                 "radial_projected", "overlay_mesh", "pixel_coordinates", "grid_pixel_indexes",
+                 "grid_pixel_centres", "grid_pixels", "mesh_pixels_per_image_pixels", "edge_slim", "border_slim",
+                 "sub_border_slim", "pixels_in_mask", "blurring_bits", "resized_bits"]
+    HIST_DS = ["ds_uniform", "ds_uniform_os", "ds_pix_os", "ds_pixelization", "ds_blurring",
+               "ds_relocator_sub_grid", "ds_origins", "simulator"]
+    HIST_MAPPER = ["mapper_rectangular", "mapper_delaunay"]
+    # history entry -> model entry of `c12.entries`
+    HIST_MODEL = {"over_sampled_cfg": "over_sampled", "over_sampled_cfg2": "over_sampled",
+                  "ds_uniform": "from_mask", "ds_pixelization": "from_mask", "ds_uniform_os": "over_sampled",
+                  "ds_relocator_sub_grid": None, "ds_blurring": "blurring"}
+    HIST_TABLES = ["edge_slim", "border_slim", "blurring_bits", "resized_bits", "zoom_mask_unmasked",
+                   "zoomed_around_mask"]
+    SHARE_KINDS = ["os_uniform", "os_dataset", "psf", "overlay", "overlay33", "simulator", "mask_array",
+                   "data_arrays"]
+    FAULTS = ["blurring_too_big", "blurring_mask_too_big", "setitem_oob", "apply_mask_wrong_shape",
+              "sampler_bad_mask", "sampler_wrong_sub", "pixel_indexes_bad_grid", "overlay_all_masked",
+              "resized_bad", "relocator_bad_grid", "array_wrong_length", "user_func_raises"]
+
+    class _Session:
+        def __init__(self, chk, aa, case, worlds, persist):
+            self.chk, self.aa, self.case, self.persist = chk, aa, case, persist
+            self.worlds = worlds  # [{"arr": bool array (current content), "scales": (sy, sx), "origin": (oy, ox), ...}]
+            self.share = set(case.get("share", [])) if persist else set()
+            self.cfgs, self.arrays = {}, {}
+            self.objs = [dict() for _ in worlds]
+            h, w = worlds[0]["arr"].shape
+            rs = np.random.RandomState(int(case["seed"]) % (2 ** 31))
+            self.data_v = np.round(rs.uniform(1, 9, size=(h, w)) * 8) / 8
+            self.noise_v = np.round(rs.uniform(1, 3, size=(h, w)) * 8) / 8
+            self.psf_v = np.array([[1.0, 2.0, 1.0], [0.0, 4.0, 2.0], [1.0, 3.0, 2.0]]) / 16.0
+
+        # -- configuration objects (carry no geometry: shared between worlds when listed in case["share"])
+        def cfg(self, kind):
+            if kind in self.share and kind in self.cfgs:
+                return self.cfgs[kind]
+            aa, c = self.aa, self.case
+            if kind == "os_uniform":
+                o = aa.OverSamplingUniform(sub_size=c["sub"])
+            elif kind == "os_pix":
+                o = aa.OverSamplingUniform(sub_size=c["sub_pix"])
+            elif kind == "os_dataset":
+                o = aa.OverSamplingDataset(uniform=self.cfg("os_uniform"), pixelization=self.cfg("os_pix"))
+            elif kind == "psf":
+                o = aa.Kernel2D.no_mask(values=self.psf_v.copy(), pixel_scales=self.worlds[0]["scales"])
+            elif kind == "overlay":
+                o = aa.image_mesh.Overlay(shape=tuple(c["overlay"]))
+            elif kind == "overlay33":
+                o = aa.image_mesh.Overlay(shape=(3, 3))
+            elif kind == "simulator":
+                o = aa.SimulatorImaging(exposure_time=100.0, add_poisson_noise_to_data=False,
+                                        include_poisson_noise_in_noise_map=bool(c["seed"] % 2),
+                                        psf=self.cfg("psf"), noise_seed=1)
+            else:
+                raise KeyError(kind)
+            if kind in self.share:
+                self.cfgs[kind] = o
+            return o
+
+        def _caller_array(self, name, a):
+            """the caller-owned numpy array handed to a constructor: one object reused for every world with the
+            same content when shared, else a private copy; read-only when the case says so"""
+            if name in self.share:
+                key = (name, a.shape, a.tobytes())
+                if key not in self.arrays:
+                    b = a.copy()
+                    if self.case.get("ro_arrays"):
+                        b.flags.writeable = False
+                    self.arrays[key] = b
+                return self.arrays[key]
+            b = a.copy()
+            if self.case.get("ro_arrays"):
+                b.flags.writeable = False
+            return b
+
+        # -- per-world objects, kept for the whole history (persist) or rebuilt on every use (fresh)
+        def obj(self, wi, kind):
+            if self.persist and kind in self.objs[wi]:
+                return self.objs[wi][kind]
+            aa, c, w = self.aa, self.case, self.worlds[wi]
+            if kind == "mask":
+                if self.persist and w.get("ctor") == "from_obj":
+                    # the user's way of "moving" a mask: a new Mask2D from an existing mask object, new origin
+                    o = aa.Mask2D(mask=self.obj(w["from"], "mask"), pixel_scales=w["scales"], origin=w["origin"])
+                else:
+                    o = aa.Mask2D(mask=self._caller_array("mask_array", w["arr"]), pixel_scales=w["scales"],
+                                  origin=w["origin"])
+            elif kind == "grid":
+                o = aa.Grid2D.from_mask(mask=self.obj(wi, "mask"), over_sampling=self.cfg("os_uniform"))
+            elif kind == "sampler":
+                o = aa.OverSamplerUniform(mask=self.obj(wi, "mask"), sub_size=c["sub"])
+            elif kind == "relocator":
+                o = aa.BorderRelocator(mask=self.obj(wi, "mask"), sub_size=c["sub"])
+            elif kind == "ds_raw":
+                data = aa.Array2D.no_mask(values=self._caller_array("data_arrays", self.data_v),
+                                          pixel_scales=w["scales"], origin=w["origin"])
+                noise = aa.Array2D.no_mask(values=self._caller_array("data_arrays", self.noise_v),
+                                           pixel_scales=w["scales"], origin=w["origin"])
+                o = aa.Imaging(data=data, noise_map=noise, psf=self.cfg("psf"))
+            elif kind == "ds":
+                o = self.obj(wi, "ds_raw").apply_mask(mask=self.obj(wi, "mask")).apply_over_sampling(
+                    over_sampling=self.cfg("os_dataset"))
+            else:
+                raise KeyError(kind)
+            if self.persist:
+                self.objs[wi][kind] = o
+            return o
+
+        def drop_derived(self, wi):
+            """after an in-place edit of the world's mask: objects that legitimately keep values computed from the
+            old content (a Grid2D's coordinates, cached sub-grids, a masked dataset) are rebuilt from the edited mask"""
+            for k in ("grid", "sampler", "relocator", "ds"):
+                self.objs[wi].pop(k, None)
+
+        # -- the observable entries
+        def entry(self, wi, name):
+            aa, c, w = self.aa, self.case, self.worlds[wi]
+            o = w["origin"]
+            k = tuple(c["kernel"])
+
+            def grid(g):
+                return np.asarray(g.array if hasattr(g, "array") else g, dtype=float).reshape(-1, 2).tolist()
+
+            def m():
+                return self.obj(wi, "mask")
+
+            def bits(x):
+                return "".join("1" if b else "0" for b in np.asarray(x).ravel())
+
+            def geomrec(z, values=None):
+                r = {"origin": list(map(float, z.origin)), "shape": list(z.shape_native),
+                     "grid": grid(aa.Grid2D.from_mask(mask=z)) if z.pixels_in_mask > 0 else []}
+                if values is not None:
+                    r["values"] = values
+                return r
+
+            def pts(key):
+                return [(float(Fraction(a)) + o[0], float(Fraction(b)) + o[1]) for a, b in c[key]]
+
+            def gi():
+                return aa.Grid2D.no_mask(values=np.array(pts("rel_points"), dtype=float).reshape(2, 2, 2), pixel_scales=1.0)
+
+            def dsrec(d):
+                return {"data_origin": list(map(float, d.data.mask.origin)),
+                        "noise_origin": list(map(float, d.noise_map.mask.origin)),
+                        "shape": list(d.data.shape_native), "grid": grid(d.grids.uniform),
+                        "data": np.asarray(d.data.native.array, dtype=float).ravel().tolist()}
+            if name == "from_mask":
+                return "coord", grid(self.obj(wi, "grid"))
+            if name in ("all_false", "unmasked", "edge", "border"):
+                return "coord", grid(getattr(m().derive_grid, name))
+            if name == "blurring":
+                return "coord", grid(aa.Grid2D.blurring_grid_from(mask=m(), kernel_shape_native=k))
+            if name == "padded":
+                return "coord", grid(self.obj(wi, "grid").padded_grid_from(kernel_shape_native=k))
+            if name == "over_sampled":
+                return "coord", grid(self.obj(wi, "sampler").over_sampled_grid)
+            if name == "over_sampled_cfg":  # through the configuration object carried by the grid
+                return "coord", grid(self.obj(wi, "grid").over_sampler.over_sampled_grid)
+            if name == "over_sampled_cfg2":
+                return "coord", grid(self.cfg("os_uniform").over_sampler_from(mask=m()).over_sampled_grid)
+            if name == "border_sub_grid":
+                return "coord", grid(self.obj(wi, "relocator").sub_grid)
+            if name == "sub_border_grid":
+                return "coord", grid(self.obj(wi, "relocator").sub_border_grid)
+            if name == "mask_centre":
+                return "coord", [list(map(float, m().mask_centre))]
+            if name == "extent":
+                return "extent", list(map(float, m().geometry.extent))
+            if name == "scaled_minmax":
+                return "coord", [list(map(float, m().geometry.scaled_minima)), list(map(float, m().geometry.scaled_maxima))]
+            if name == "zoom_mask_unmasked":
+                return "coordrec", geomrec(m().zoom_mask_unmasked)
+            if name == "zoomed_around_mask":
+                mm = m()
+                a = aa.Array2D(values=np.arange(1.0, mm.shape_native[0] * mm.shape_native[1] + 1).reshape(mm.shape_native), mask=mm)
+                z = a.zoomed_around_mask(buffer=1)
+                return "coordrec", geomrec(z.mask, np.asarray(z.native.array, dtype=float).ravel().tolist())
+            if name == "resized":
+                return "coordrec", geomrec(m().resized_from(new_shape=tuple(c["resize_to"])))
+            if name == "radial_projected":
+                return "coord", grid(self.obj(wi, "grid").grid_2d_radial_projected_from(
+                    centre=(o[0] + 0.25, o[1] - 0.5), angle=float(c["angle"])))
+            if name == "overlay_mesh":
+                return "coord", grid(self.cfg("overlay").image_plane_mesh_grid_from(mask=m(), adapt_data=None))
+            if name == "pixel_coordinates":
+                return "inv", [list(map(int, m().geometry.pixel_coordinates_2d_from(scaled_coordinates_2d=p)))
+                               for p in pts("rel_points")]
+            if name == "grid_pixel_indexes":
+                return "inv", [int(v) for v in np.asarray(m().geometry.grid_pixel_indexes_2d_from(grid_scaled_2d=gi()))]
+            if name == "grid_pixel_centres":
+                return "inv", np.asarray(m().geometry.grid_pixel_centres_2d_from(grid_scaled_2d=gi()),
+                                         dtype=float).reshape(-1, 2).tolist()
+            if name == "grid_pixels":
+                return "inv", np.asarray(m().geometry.grid_pixels_2d_from(grid_scaled_2d=gi()),
+                                         dtype=float).reshape(-1, 2).tolist()
+            if name == "mesh_pixels_per_image_pixels":
+                gm = aa.Grid2DIrregular(values=pts("rel_mesh_points"))
+                return "inv", np.asarray(self.cfg("overlay33").mesh_pixels_per_image_pixels_from(
+                    mask=m(), mesh_grid=gm).native.array, dtype=float).ravel().tolist()
+            if name == "edge_slim":
+                return "inv", [int(v) for v in m().derive_indexes.edge_slim]
+            if name == "border_slim":
+                return "inv", [int(v) for v in m().derive_indexes.border_slim]
+            if name == "sub_border_slim":
+                return "inv", [int(v) for v in self.obj(wi, "relocator").sub_border_slim]
+            if name == "pixels_in_mask":
+                return "inv", int(m().pixels_in_mask)
+            if name == "blurring_bits":
+                return "inv", bits(m().derive_mask.blurring_from(kernel_shape_native=k))
+            if name == "resized_bits":
+                return "inv", bits(m().resized_from(new_shape=tuple(c["resize_to"])))
+            # datasets (shared caller arrays / psf / OverSamplingDataset)
+            if name == "ds_uniform":
+                return "coord", grid(self.obj(wi, "ds").grids.uniform)
+            if name == "ds_uniform_os":
+                return "coord", grid(self.obj(wi, "ds").grids.uniform.over_sampler.over_sampled_grid)
+            if name == "ds_pix_os":
+                return "coord", grid(self.obj(wi, "ds").grids.over_sampler_pixelization.over_sampled_grid)
+            if name == "ds_pixelization":
+                return "coord", grid(self.obj(wi, "ds").grids.pixelization)
+            if name == "ds_blurring":
+                return "coord", grid(self.obj(wi, "ds").grids.blurring)
+            if name == "ds_relocator_sub_grid":
+                return "coord", grid(self.obj(wi, "ds").grids.border_relocator.sub_grid)
+            if name == "ds_origins":
+                return "dsrec", dsrec(self.obj(wi, "ds"))
+            if name == "simulator":
+                img = aa.Array2D.no_mask(values=self._caller_array("data_arrays", self.data_v),
+                                         pixel_scales=w["scales"], origin=w["origin"])
+                return "dsrec", dsrec(self.cfg("simulator").via_image_from(image=img))
+            if name in ("mapper_rectangular", "mapper_delaunay"):
+                mcase = {"_mask_np": np.asarray(m().array, dtype=bool).copy(), "scales": [q(w["scales"][0]), q(w["scales"][1])],
+                         "sub": min(int(c["sub"]), 2), "mesh": c["mesh"], "seed": c["seed"]}
+                e = self.chk._entries_mapper(aa, mcase, o, (0.0, 0.0))[name]
+                if e.get("err"):
+                    raise RuntimeError(f"{e['err']}: {e.get('msg', '')}")
+                return e["kind"], e["value"]
+            raise KeyError(name)
+
+        def put(self, wi, name):
+            try:
+                kind, v = self.entry(wi, name)
+                return {"kind": kind, "value": v}
+            except Exception as e:
+                return {"kind": "?", "value": None, "err": type(e).__name__, "msg": str(e)[:200]}
+
+        # -- decoy reads: every public property of the objects involved, in a seeded order
+        def decoy(self, wi, seed):
+            import inspect
+            import random as _random
+            mm = self.obj(wi, "mask")
+            objs = [mm, mm.geometry, mm.derive_indexes, mm.derive_mask, mm.derive_grid, self.obj(wi, "grid"),
+                    self.obj(wi, "sampler"), self.obj(wi, "relocator")]
+            if "ds" in self.objs[wi]:
+                objs += [self.objs[wi]["ds"], self.objs[wi]["ds"].grids]
+            objs += [v for v in self.cfgs.values()]
+            todo = []
+            for ob in objs:
+                for nm in dir(type(ob)):
+                    if nm.startswith("_"):
+                        continue
+                    a = inspect.getattr_static(type(ob), nm)
+                    if isinstance(a, property) or type(a).__name__.lower() in ("cached_property", "cachedproperty"):
+                        todo.append((ob, nm))
+            _random.Random(seed).shuffle(todo)
+            n = 0
+            for ob, nm in todo:
+                try:
+                    getattr(ob, nm)
+                    n += 1
+                except Exception:
+                    pass
+            return n
+
+        # -- a documented failure in the middle of the session; the same objects stay in use afterwards
+        def fault(self, wi, kind):
+            aa = self.aa
+            mm = self.obj(wi, "mask")
+            h, w = mm.shape_native
+            try:
+                if kind == "blurring_too_big":
+                    aa.Grid2D.blurring_grid_from(mask=mm, kernel_shape_native=(2 * h + 1, 2 * w + 1))
+                elif kind == "blurring_mask_too_big":
+                    mm.derive_mask.blurring_from(kernel_shape_native=(2 * h + 1, 2 * w + 1))
+                elif kind == "setitem_oob":
+                    mm[h + 3, 0] = False
+                elif kind == "apply_mask_wrong_shape":
+                    self.obj(wi, "ds_raw").apply_mask(mask=aa.Mask2D.all_false(
+                        shape_native=(h + 1, w + 2), pixel_scales=mm.pixel_scales))
+                elif kind == "sampler_bad_mask":
+                    self.cfg("os_uniform").over_sampler_from(mask=None).over_sampled_grid
+                elif kind == "sampler_wrong_sub":
+                    aa.OverSamplerUniform(mask=mm, sub_size=aa.Array2D.no_mask(
+                        values=[[2.0, 3.0]], pixel_scales=1.0)).over_sampled_grid
+                elif kind == "pixel_indexes_bad_grid":
+                    mm.geometry.grid_pixel_indexes_2d_from(grid_scaled_2d=np.zeros((3,)))
+                elif kind == "overlay_all_masked":
+                    self.cfg("overlay33").image_plane_mesh_grid_from(mask=aa.Mask2D(
+                        mask=np.ones((h, w), dtype=bool), pixel_scales=mm.pixel_scales, origin=mm.origin), adapt_data=None)
+                elif kind == "resized_bad":
+                    mm.resized_from(new_shape=(0, w))
+                elif kind == "relocator_bad_grid":
+                    self.obj(wi, "relocator").relocated_grid_from(grid=None)
+                elif kind == "array_wrong_length":
+                    aa.Array2D(values=np.zeros(mm.pixels_in_mask + 2), mask=mm).native
+                elif kind == "user_func_raises":
+                    calls = []
+
+                    def func(grid_, *a, **k):
+                        calls.append(1)
+                        raise ValueError("user function failed")
+                    self.obj(wi, "grid").over_sampler.array_via_func_from(func=func, obj=None)
+                return None
+            except Exception as e:
+                return type(e).__name__
+
+    def _hist_worlds(self, case, bits_override=None):
+        out = []
+        for k, w in enumerate(case["worlds"]):
+            out.append({"arr": mask_from_json(w["mask"]).copy(),
+                        "scales": (F(w["scales"][0]), F(w["scales"][1])),
+                        "origin": (F(w["origin"][0]), F(w["origin"][1])),
+                        "ctor": w.get("ctor", "ctor"), "from": w.get("from")})
+        return out
+
+    @staticmethod
+    def _bits(a):
+        return "".join("1" if b else "0" for b in np.asarray(a, dtype=bool).ravel())
+
+    def _hist_all_names(self, case):
+        names = list(self.HIST_GEOM)
+        if not case.get("overlay"):
+            names.remove("overlay_mesh")
+        return names
+
+    def _run_history(self, aa, case):
+        if case.get("script") == "hilbert_shared":
+            return self._run_hilbert_history(aa, case)
+        import copy as _copy
+        worlds = self._hist_worlds(case)
+        S = self._Session(self, aa, case, worlds, persist=True)
+        steps, log = [], []
+        for op in case["ops"]:
+            kind = op[0]
+            if kind == "obs":
+                wi, names = op[1], op[2]
+                ent = {n: S.put(wi, n) for n in names}
+                steps.append({"w": wi, "bits": self._bits(worlds[wi]["arr"]), "hist": ent})
+            elif kind == "decoy":
+                log.append(["decoy", op[1], S.decoy(op[1], op[2])])
+            elif kind == "edit":
+                _, wi, y, x, val, how = op
+                mm = S.obj(wi, "mask")
+                if how == "boolkey":
+                    key = np.zeros(worlds[wi]["arr"].shape, dtype=bool)
+                    key[y, x] = True
+                    mm[key] = bool(val)
+                else:
+                    mm[y, x] = bool(val)
+                worlds[wi]["arr"][y, x] = bool(val)  # the expectation follows the edit
+                S.drop_derived(wi)
+            elif kind == "clone":
+                _, wi, how = op
+                mm = S.obj(wi, "mask")
+                S.objs[wi]["mask"] = _copy.copy(mm) if how == "copy" else _copy.deepcopy(mm) if how == "deepcopy" \
+                    else mm.copy()
+                S.drop_derived(wi)
+            elif kind == "fault":
+                log.append(["fault", op[2], S.fault(op[1], op[2])])
+        # expectations: freshly built objects, one evaluation per distinct (world, content) state, AFTER the history
+        fresh = {}
+        need = self._hist_all_names(case)
+        for st in steps:
+            key = f"{st['w']}|{st['bits']}"
+            st["key"] = key
+            if key in fresh:
+                continue
+            w0 = worlds[st["w"]]
+            snap = {"arr": np.array([ch == "1" for ch in st["bits"]], dtype=bool).reshape(w0["arr"].shape),
+                    "scales": w0["scales"], "origin": w0["origin"], "ctor": "ctor", "from": None}
+            Fs = self._Session(self, aa, case, [snap], persist=False)
+            names = list(need) + [n for n in st["hist"] if n not in need]
+            for st2 in steps:  # every name any step observes in this state
+                if st2["w"] == st["w"] and st2["bits"] == st["bits"]:
+                    names += [n for n in st2["hist"] if n not in names]
+            fresh[key] = {n: Fs.put(0, n) for n in names}
+        return {"steps": steps, "fresh": fresh, "log": log}
+
+    # -- oracle of a history
+    @staticmethod
+    def _np_centres(arr, scales, origin):
+        h, w = arr.shape
+        ys, xs = np.nonzero(~arr)
+        return np.stack([origin[0] + ((h - 1) / 2.0 - ys) * scales[0], origin[1] + (xs - (w - 1) / 2.0) * scales[1]], axis=1)
+
+    @classmethod
+    def _np_sub_grid(cls, arr, scales, origin, sub):
+        c = cls._np_centres(arr, scales, origin)
+        a = np.arange(sub)
+        dy = scales[0] / 2.0 - (a + 0.5) * scales[0] / sub
+        dx = -scales[1] / 2.0 + (a + 0.5) * scales[1] / sub
+        yy = (c[:, 0][:, None, None] + dy[None, :, None]) + np.zeros((1, 1, sub))
+        xx = (c[:, 1][:, None, None] + dx[None, None, :]) + np.zeros((1, sub, 1))
+        return np.stack([yy.ravel(), xx.ravel()], axis=1)
+
+    def _history_desc(self, case, k):
+        """the operations up to and including the k-th observation, readable"""
+        out, n = [], -1
+        for op in case["ops"]:
+            if op[0] == "obs":
+                n += 1
+                out.append(f"read world {op[1]}")
+                if n == k:
+                    break
+            elif op[0] == "edit":
+                out.append(f"mask{op[1]}[{op[2]},{op[3]}]={bool(op[4])} ({op[5]})")
+            elif op[0] == "clone":
+                out.append(f"{op[2]} of mask{op[1]}")
+            elif op[0] == "fault":
+                out.append(f"failing call {op[2]} on world {op[1]}")
+            elif op[0] == "decoy":
+                out.append(f"all properties of world {op[1]} read")
+        return " -> ".join(out)
+
+    def _history_oracle(self, case, obs):
+        if "steps" not in obs:
+            return False, f"implementation raised {obs}"
+        if case.get("script") == "hilbert_shared":
+            return self._hilbert_history_oracle(case, obs)
+        worlds = self._hist_worlds(case)
+        sub, sub_pix = int(case["sub"]), int(case.get("sub_pix", 0) or 0)
+        for k, st in enumerate(obs["steps"]):
+            fr = obs["fresh"][st["key"]]
+            w = worlds[st["w"]]
+            arr = np.array([ch == "1" for ch in st["bits"]], dtype=bool).reshape(w["arr"].shape)
+            where = f"history step {k + 1}/{len(obs['steps'])} ({self._history_desc(case, k)}; shared: {case.get('share')})"
+            for name, e in st["hist"].items():
+                f = fr[name]
+                if e.get("err") or f.get("err"):
+                    if e.get("err") != f.get("err"):
+                        return False, (f"{where}: {name} raises {e.get('err')} {e.get('msg', '')} on the reused objects "
+                                       f"but {f.get('err')} on freshly built ones")
+                    if e.get("err") not in ("MaskException",):
+                        return False, f"{where}: {name} raises {e.get('err')} {e.get('msg', '')}"
+                    continue
+                if not self._deep_close(e["value"], f["value"]):
+                    return False, (f"{where}: {name} is not what freshly built objects in the same state give "
+                                   f"(origin {w['origin']}, scales {w['scales']})")
+                # closed forms, independent of the library
+                exp = None
+                if name in ("from_mask", "unmasked", "ds_uniform", "ds_pixelization"):
+                    exp = self._np_centres(arr, w["scales"], w["origin"])
+                elif name in ("over_sampled", "over_sampled_cfg", "over_sampled_cfg2", "border_sub_grid",
+                              "ds_uniform_os"):
+                    exp = self._np_sub_grid(arr, w["scales"], w["origin"], sub)
+                elif name in ("ds_pix_os", "ds_relocator_sub_grid") and sub_pix:
+                    exp = self._np_sub_grid(arr, w["scales"], w["origin"], sub_pix)
+                elif name == "all_false":
+                    exp = self._np_centres(np.zeros_like(arr), w["scales"], w["origin"])
+                if exp is not None:
+                    got = np.asarray(e["value"], dtype=float).reshape(-1, 2)
+                    if got.shape != exp.shape or not self._close(got, exp):
+                        return False, (f"{where}: {name} is not origin + (pixel position relative to the origin) for "
+                                       f"origin {w['origin']}")
+        # the translation relation between observations of the same content / scales at two origins
+        st_ = obs["steps"]
+        for i in range(len(st_)):
+            for j in range(i + 1, len(st_)):
+                a, b = st_[i], st_[j]
+                wa, wb = worlds[a["w"]], worlds[b["w"]]
+                if a["bits"] != b["bits"] or wa["scales"] != wb["scales"]:
+                    continue
+                d = np.array([wb["origin"][0] - wa["origin"][0], wb["origin"][1] - wa["origin"][1]])
+                common = [n for n in a["hist"] if n in b["hist"]]
+                ok, detail = self._relation(case, a["hist"], b["hist"], d, names=common)
+                if not ok:
+                    return False, (f"history observations {i + 1} (world {a['w']}) and {j + 1} (world {b['w']}), "
+                                   f"{self._history_desc(case, j)}; shared: {case.get('share')}: {detail}")
+        return True, ""
+
+    # -- model side of a history: one `c12.entries` request per observation, for a fresh object in that state
+    def _history_plan(self, case, obs):
+        plan = []
+        if "steps" not in obs or case.get("script") == "hilbert_shared":
+            return plan
+        import math
+        for k, st in enumerate(obs["steps"]):
+            fr = obs["fresh"][st["key"]]
+            w = case["worlds"][st["w"]]
+            if any(fr.get(n, {"err": 1}).get("err") for n in self.HIST_TABLES):
+                continue  # an implementation-side table is unavailable (footprint outside the frame)
+            o = [Fraction(w["origin"][0]), Fraction(w["origin"][1])]
+            h, wd = w["mask"]["h"], w["mask"]["w"]
+            plan.append((k, "entries", {
+                "op": "c12.entries", "mask": {"h": h, "w": wd, "bits": st["bits"]}, "scales": w["scales"],
+                "origin": w["origin"], "kernel": case["kernel"], "sub": case["sub"],
+                "edge_slim": fr["edge_slim"]["value"], "border_slim": fr["border_slim"]["value"],
+                "blurring_bits": fr["blurring_bits"]["value"],
+                "resized_shape": case["resize_to"], "resized_bits": fr["resized_bits"]["value"],
+                "zoom_shape": fr["zoom_mask_unmasked"]["value"]["shape"],
+                "zoomed_shape": fr["zoomed_around_mask"]["value"]["shape"],
+                "points": [[q(Fraction(a) + o[0]), q(Fraction(b) + o[1])] for a, b in case["rel_points"]]}))
+            if "radial_projected" in st["hist"]:
+                phi = math.radians(float(case["angle"]))
+                plan.append((k, "radial", {"op": "c12.radial", "shape": [h, wd], "scales": w["scales"],
+                                           "origin": w["origin"],
+                                           "centre": [q(o[0] + Fraction(1, 4)), q(o[1] - Fraction(1, 2))],
+                                           "cos_sin": [q(math.cos(phi)), q(math.sin(phi))]}))
+            e = st["hist"].get("mapper_rectangular")
+            if e and not e.get("err") and e.get("value"):
+                plan.append((k, "rect", {"op": "c12.rect_mapper", "grid": e["value"]["src"], "mesh": case["mesh"],
+                                         "buffer": q(1e-8)}))
+        return plan
+
+    def _history_requests(self, case, obs):
+        return [r for _, _, r in self._history_plan(case, obs)]
+
+    def _history_compare(self, case, obs, mobs, cmp):
+        plan = self._history_plan(case, obs)
+        resps = mobs["steps"]
+        if len(plan) != len(resps):
+            return f"history: {len(resps)} model responses for {len(plan)} requests"
+        for (k, kind, _), r in zip(plan, resps):
+            if "err" in r:
+                return f"history step {k + 1}: model error {r['err']}"
+            st = obs["steps"][k]
+            mo = r["ok"]
+            where = f"$.step{k + 1}[{self._history_desc(case, k)}]"
+            if kind == "radial":
+                e = st["hist"]["radial_projected"]
+                if e.get("err"):
+                    return f"{where}.radial_projected: implementation raised {e['err']}"
+                d = cmp.diff(e["value"], mo, f"{where}.radial_projected")
+                if d:
+                    return d
+                continue
+            if kind == "rect":
+                if Fraction(mo["tie_margin"]) < Fraction(1, 10**6):
+                    continue  # tie band of a mesh-cell boundary
+                v = st["hist"]["mapper_rectangular"]["value"]
+                d = cmp.diff({"pix": [int(x[0]) if isinstance(x, list) else int(x) for x in v["pix_indexes"]],
+                              "origin": v["mesh_origin"], "scales": v["mesh_scales_q"]},
+                             {"pix": mo["pix_indexes"], "origin": mo["origin"], "scales": mo["scales"]},
+                             f"{where}.mapper_rectangular")
+                if d:
+                    return d
+                continue
+            for name, e in st["hist"].items():
+                mname = self.HIST_MODEL.get(name, name)
+                if mname is None or mname not in self.MODEL_ENTRIES or mname == "radial_projected":
+                    continue
+                if name == "ds_blurring" and list(case["kernel"]) != [3, 3]:
+                    continue
+                if e.get("err"):
+                    return f"{where}.{name}: implementation raised {e['err']} {e.get('msg', '')}"
+                iv, mv = e["value"], mo[mname]
+                if mname == "zoomed_around_mask":
+                    iv = {kk: iv[kk] for kk in ("origin", "shape", "grid")}
+                if mname == "mask_centre":
+                    iv = iv[0]
+                d = cmp.diff(iv, mv, f"{where}.{name}")
+                if d:
+                    return d
+        return None
+
+    # -- Hilbert image mesh: one Hilbert instance (and one SettingsInversion) used for two origins
+    def _run_hilbert_history(self, aa, case):
+        n, s = case["n"], F(case["scale"])
+        yy, xx = np.mgrid[0:n, 0:n]
+        img = 1.0 + 0.25 * yy + 0.5 * xx
+
+        def make():
+            return aa.image_mesh.Hilbert(pixels=case["pixels"], weight_floor=0.1, weight_power=1.0)
+
+        def settings():
+            return aa.SettingsInversion(image_mesh_min_mesh_pixels_per_pixel=0, image_mesh_min_mesh_number=1,
+                                        image_mesh_adapt_background_percent_threshold=None) \
+                if case.get("settings_checks") else None
+
+        def run(hb, st, origin):
+            m = aa.Mask2D.circular(shape_native=(n, n), radius=F(case["radius"]), pixel_scales=s, origin=origin)
+            adapt = aa.Array2D.no_mask(values=img, pixel_scales=s, origin=origin)
+            try:
+                g = hb.image_plane_mesh_grid_from(mask=m, adapt_data=adapt, settings=st)
+                return {"kind": "coord", "value": np.asarray(g.array, dtype=float).reshape(-1, 2).tolist()}
+            except Exception as e:
+                return {"kind": "coord", "value": None, "err": type(e).__name__, "msg": str(e)[:200]}
+        hb, st = make(), settings()
+        steps = []
+        for o in case["origins"]:
+            origin = (F(o[0]), F(o[1]))
+            steps.append({"origin": [origin[0], origin[1]], "hist": {"hilbert_mesh": run(hb, st, origin)}})
+        for stp in steps:
+            stp["fresh"] = {"hilbert_mesh": run(make(), settings(), tuple(stp["origin"]))}
+        return {"steps": steps}
+
+    def _hilbert_history_oracle(self, case, obs):
+        st = obs["steps"]
+        for k, a in enumerate(st):
+            e, f = a["hist"]["hilbert_mesh"], a["fresh"]["hilbert_mesh"]
+            if e.get("err") or f.get("err"):
+                return False, f"hilbert history step {k + 1}: raises {e.get('err')} / fresh {f.get('err')} {e.get('msg', '')}"
+            if not self._deep_close(e["value"], f["value"]):
+                return False, (f"hilbert history step {k + 1} (one Hilbert object reused for origins "
+                               f"{[s_['origin'] for s_ in st[:k + 1]]}): mesh differs from a fresh Hilbert object's")
+        for i in range(len(st)):
+            for j in range(i + 1, len(st)):
+                d = np.array(st[j]["origin"]) - np.array(st[i]["origin"])
+                ok, detail = self._relation(case, st[i]["hist"], st[j]["hist"], d)
+                if not ok:
+                    return False, f"hilbert history, origins {st[i]['origin']} -> {st[j]['origin']}: {detail}"
+        return True, ""
+
+    # -- generation of histories
+    def _hist_base(self, rng, use_ds):
+        """one world A and the case-level ingredients (same recipe as the geometry stream)"""
+        h, w = rng.randint(6, 9), rng.randint(6, 9)
+        k = [3, 3] if use_ds else [rng.choice([1, 3]), rng.choice([1, 3])]
+        m, kind = gen.random_mask(rng, h, w, margin=1)
+        sy, sx = gen.scales_pair(rng)
+        if rng.random() < 0.15:
+            sx = sy
+        oy, ox = gen.origin_pair(rng)
+        return h, w, k, m, kind, sy, sx, oy, ox
+
+    def _rel_points(self, rng, h, w, scale_sets, n=4, inside=False):
+        """points relative to the origin, off every pixel boundary for each of the scale pairs in use"""
+        pts = []
+        sy0, sx0 = scale_sets[0]
+        while len(pts) < n:
+            if inside:
+                i, j = rng.randrange(h), rng.randrange(w)
+                fi, fj = (rng.choice([Fraction(1, 4), Fraction(1, 2), Fraction(3, 4)]) for _ in range(2))
+                ry, rx = (Fraction(h, 2) - (i + fi)) * sy0, ((j + fj) - Fraction(w, 2)) * sx0
+            else:
+                ry, rx = gen.dyadic(rng, -2, 2, 4), gen.dyadic(rng, -2, 2, 4)
+            ok = True
+            for sy, sx in scale_sets:
+                fy, fx = -ry / sy + Fraction(h, 2), rx / sx + Fraction(w, 2)
+                near = lambda v: abs(v - round(v)) < Fraction(1, 64)
+                if near(fy) or near(fx):
+                    ok = False
+            if ok:
+                pts.append([q(ry), q(rx)])
+        return pts
+
+    def _history_two_worlds(self, rng, delta, order, share_mode, use_ds, mapper, decoy, fault=None):
+        h, w, k, m, kind, sy, sx, oy, ox = self._hist_base(rng, use_ds)
+        A = {"mask": mask_json(m), "scales": [q(sy), q(sx)], "origin": [q(oy), q(ox)], "ctor": "ctor"}
+        mB, syB, sxB, oyB, oxB = [r[:] for r in m], sy, sx, oy, ox
+        eps20, eps17 = Fraction(1, 2 ** 20), Fraction(1, 2 ** 17)
+        if delta == "origin":
+            dy, dx = gen.dyadic(rng, -3, 3, 2), gen.dyadic(rng, -3, 3, 2)
+            if dy == 0 and dx == 0:
+                dx = Fraction(5, 4)
+            oyB, oxB = oy + dy, ox + dx
+        elif delta in ("origin_rel20", "origin_rel17"):
+            # near-duplicate twin: inside np.allclose's default tolerance, ~10^3 x the property's 1e-9
+            e = eps20 if delta.endswith("20") else eps17
+            oy, ox = oy or Fraction(3, 2), ox or Fraction(-5, 4)
+            A["origin"] = [q(oy), q(ox)]
+            oyB, oxB = oy * (1 + e), ox * (1 - e)
+        elif delta == "origin_abs":
+            # tiny absolute twin: 0 against 2^-27 (below allclose's atol 1e-8, 7.5 x the 1e-9 band)
+            which = rng.randrange(2)
+            oy, ox = (Fraction(0), ox) if which == 0 else (oy, Fraction(0))
+            A["origin"] = [q(oy), q(ox)]
+            oyB, oxB = (Fraction(1, 2 ** 27), ox) if which == 0 else (oy, -Fraction(1, 2 ** 27))
+        elif delta == "scale_rel":
+            if rng.random() < 0.5:
+                syB = sy * (1 + eps20)
+            else:
+                sxB = sx * (1 - eps17)
+        elif delta == "pixel":
+            cand = [(y, x) for y in range(1, h - 1) for x in range(1, w - 1)]
+            y, x = rng.choice(cand)
+            mB[y][x] = not mB[y][x]
+            if all(b for r in mB for b in r):
+                mB[y][x] = False
+            if rng.random() < 0.5:
+                oyB, oxB = oy + Fraction(3, 4), ox - Fraction(5, 4)
+        B = {"mask": mask_json(mB), "scales": [q(syB), q(sxB)], "origin": [q(oyB), q(oxB)], "ctor": "ctor"}
+        if mB == m and rng.random() < 0.4:
+            B["ctor"], B["from"] = "from_obj", 0
+        worlds = [A, B]
+        first, second = (0, 1) if order == 0 else (1, 0)
+        if order == 1 and B.get("ctor") == "from_obj":
+            pass  # B is built from A's mask object, which is then built (but not yet read) first
+        share = list(self.SHARE_KINDS) if share_mode == "all" else \
+            [s_ for s_ in self.SHARE_KINDS if rng.random() < 0.5] if share_mode == "some" else []
+        ov = self._overlay_shape_without_ties(rng, m) if mB == m else rng.choice([[2, 3], [3, 3], [3, 4]])
+        names = list(self.HIST_GEOM)
+        if not ov:
+            names.remove("overlay_mesh")
+        if use_ds:
+            names += self.HIST_DS
+        if mapper:
+            names += self.HIST_MAPPER
+        n1, n2 = names[:], names[:]
+        rng.shuffle(n1)
+        rng.shuffle(n2)
+        n3 = rng.sample(names, min(10, len(names)))
+        ops = []
+        if decoy:
+            ops.append(["decoy", first, rng.randint(0, 10 ** 6)])
+        ops.append(["obs", first, n1])
+        if fault:
+            ops.append(["fault", first, fault])
+        if decoy and rng.random() < 0.5:
+            ops.append(["decoy", second, rng.randint(0, 10 ** 6)])
+        ops.append(["obs", second, n2])
+        ops.append(["obs", first, n3])
+        scale_sets = [(sy, sx), (syB, sxB)]
+        case = {"tag": f"hist_two_worlds_{delta}" if not fault else f"hist_fault_{fault}", "group": "history",
+                "script": "two_worlds", "delta": delta, "worlds": worlds, "ops": ops, "share": share,
+                "sub": rng.randint(1, 3), "sub_pix": rng.randint(1, 3), "kernel": k,
+                "rel_points": self._rel_points(rng, h, w, scale_sets),
+                "rel_mesh_points": self._rel_points(rng, h, w, scale_sets, n=6, inside=True),
+                "resize_to": [h + rng.choice([-2, 0, 2, 3]), w + rng.choice([-2, 0, 2, 1])],
+                "overlay": ov, "angle": rng.choice([0, 30, 45, 90, 120]), "seed": rng.randint(0, 10 ** 6),
+                "ro_arrays": rng.random() < 0.3}
+        if mapper:
+            case["mesh"] = [rng.randint(3, 4), rng.randint(3, 5)]
+        return case
+
+    def _history_edit(self, rng, how, clone, decoy, use_ds):
+        h, w, k, m, kind, sy, sx, oy, ox = self._hist_base(rng, use_ds)
+        A = {"mask": mask_json(m), "scales": [q(sy), q(sx)], "origin": [q(oy), q(ox)], "ctor": "ctor"}
+        cur = [r[:] for r in m]
+        names = [n for n in self.HIST_GEOM if n != "overlay_mesh"]
+        if use_ds:
+            names += [n for n in self.HIST_DS if n != "simulator"]
+        ops = []
+        if decoy:
+            ops.append(["decoy", 0, rng.randint(0, 10 ** 6)])
+        n1 = names[:]
+        rng.shuffle(n1)
+        ops.append(["obs", 0, n1])
+        if clone:
+            ops.append(["clone", 0, clone])
+        for _ in range(rng.randint(1, 2)):
+            inner = [(y, x) for y in range(1, h - 1) for x in range(1, w - 1)]
+            un = [(y, x) for (y, x) in inner if not cur[y][x]]
+            ma = [(y, x) for (y, x) in inner if cur[y][x]]
+            if ma and (len(un) <= 1 or rng.random() < 0.6):
+                y, x = rng.choice(ma)
+                val = False
+            else:
+                y, x = rng.choice(un)
+                val = True
+            cur[y][x] = val
+            ops.append(["edit", 0, y, x, val, how])
+            if rng.random() < 0.4:
+                n_mid = rng.sample(names, 8)
+                ops.append(["obs", 0, n_mid])
+        n2 = names[:]
+        rng.shuffle(n2)
+        ops.append(["obs", 0, n2])
+        return {"tag": f"hist_edit_{how}" + (f"_{clone}" if clone else ""), "group": "history", "script": "edit",
+                "worlds": [A], "ops": ops, "share": list(self.SHARE_KINDS),
+                "sub": rng.randint(1, 3), "sub_pix": rng.randint(1, 3), "kernel": k,
+                "rel_points": self._rel_points(rng, h, w, [(sy, sx)]),
+                "rel_mesh_points": self._rel_points(rng, h, w, [(sy, sx)], n=6, inside=True),
+                "resize_to": [h + rng.choice([-2, 0, 2, 3]), w + rng.choice([-2, 0, 2, 1])],
+                "overlay": None, "angle": rng.choice([0, 30, 45, 90, 120]), "seed": rng.randint(0, 10 ** 6),
+                "ro_arrays": False}
+
+    def _history_hilbert(self, rng, delta, order):
+        n = rng.choice([15, 17, 21])
+        s = rng.choice([Fraction(1, 4), Fraction(1, 2)])
+        oy, ox = gen.origin_pair(rng)
+        oy, ox = oy or Fraction(3, 2), ox or Fraction(-5, 4)
+        if delta == "origin":
+            dy, dx = gen.dyadic(rng, -3, 3, 2), gen.dyadic(rng, -3, 3, 2)
+            if dy == 0 and dx == 0:
+                dx = Fraction(3, 4)
+            o2 = (oy + dy, ox + dx)
+        else:
+            e = Fraction(1, 2 ** 20)
+            o2 = (oy * (1 + e), ox * (1 - e))
+        origins = [[q(oy), q(ox)], [q(o2[0]), q(o2[1])]]
+        if order:
+            origins.reverse()
+        origins.append(origins[0])
+        return {"tag": f"hist_hilbert_{delta}", "group": "history", "script": "hilbert_shared", "n": n,
+                "scale": q(s), "radius": q(s * (n // 2 - 2)), "origins": origins, "pixels": rng.randint(8, 20),
+                "settings_checks": bool(rng.randrange(2)), "ops": ["shared Hilbert", "origins"]}
+
+    def _histories(self, tier, rng):
+        reps = 2 if tier == "quick" else 10
+        for rep in range(reps):
+            k = 0
+            for delta in ("origin", "origin_rel20", "origin_rel17", "origin_abs", "scale_rel", "pixel", "origin"):
+                for order in (0, 1):
+                    for share_mode in ("all", "some"):
+                        k += 1
+                        yield self._history_two_worlds(rng, delta, order, share_mode, use_ds=(k % 2 == 0),
+                                                       mapper=(k % 3 == 0), decoy=(k % 4 == 1))
+            for how in ("index", "boolkey"):
+                for clone in (None, "copy", "deepcopy"):
+                    for decoy in (False, True):
+                        k += 1
+                        yield self._history_edit(rng, how, clone, decoy, use_ds=(k % 2 == 0))
+            for fault in self.FAULTS:
+                k += 1
+                yield self._history_two_worlds(rng, rng.choice(["origin", "origin_rel20"]), k % 2, "all",
+                                               use_ds=True, mapper=False, decoy=False, fault=fault)
+            for delta, order in (("origin", 0), ("origin", 1), ("origin_rel20", 0)):
+                yield self._history_hilbert(rng, delta, order)
 
     # ------------------------------------------------------------------ oracle: the metamorphic relation
     @staticmethod
@@ -418,12 +1605,48 @@ class C12(PropertyCheck):
                     out = True
         return out
 
+    @staticmethod
+    def _rect_tie_np(src, mesh_shape, margin=1e-6):
+        """vectorised form of `_rect_tie` for the large stream (float evaluation: the margin, 1e-6 of a cell,
+        is ~10^6 times the rounding error of the evaluation)"""
+        pts = np.array([[float(Fraction(a)), float(Fraction(b))] for a, b in src], dtype=float)
+        buf = 1e-8
+        for axis, S in ((0, mesh_shape[0]), (1, mesh_shape[1])):
+            lo, hi = pts[:, axis].min() - buf, pts[:, axis].max() + buf
+            if hi == lo:
+                continue
+            c = (hi - pts[:, axis]) / (hi - lo) * S if axis == 0 else (pts[:, axis] - lo) / (hi - lo) * S
+            inner = (c >= 0.5) & (c <= S - 0.5)
+            f = c - np.floor(c)
+            if np.any(inner & (np.minimum(f, 1 - f) < margin)):
+                return True
+        return False
+
     def oracle(self, case, obs):
+        if case.get("group") == "history":
+            return self._history_oracle(case, obs)
+        if case.get("large"):
+            # large stream: run_impl evaluated the very relation below (`_relation`) on the full arrays and kept a
+            # summary (the arrays of a 10^5-pixel frame do not belong into evidence / replay files)
+            if "relation" not in obs:
+                return False, f"implementation raised {obs}"
+            return bool(obs["relation"]["holds"]), obs["relation"]["detail"]
         if "err" in obs and "at_o" not in obs:
             return False, f"implementation raised {obs}"
         d = np.array([F(case["shift"][0]), F(case["shift"][1])])
-        for name, e0 in obs["at_o"].items():
-            e1 = obs["at_od"][name]
+        return self._relation(case, obs["at_o"], obs["at_od"], d)
+
+    def _relation(self, case, at_o, at_od, d, names=None):
+        """the metamorphic relation of the property between the entries evaluated at origin o (`at_o`) and at
+        o+d (`at_od`): coordinate-valued entries translate by d, everything else is unchanged."""
+        for name, e0 in at_o.items():
+            if names is not None and name not in names:
+                continue
+            if name not in at_od:
+                if names is None:
+                    return False, f"{name}: evaluated at origin o but missing at o+d"
+                continue
+            e1 = at_od[name]
             if e0.get("err") or e1.get("err"):
                 if e0.get("err") != e1.get("err"):
                     return False, f"{name}: raises {e0.get('err')} at origin o but {e1.get('err')} at o+d {e1.get('msg','')}"
@@ -432,14 +1655,20 @@ class C12(PropertyCheck):
                     return False, f"{name}: raises {e0.get('err')} at both origins {e0.get('msg','')}"
                 continue
             k, v0, v1 = e0["kind"], e0["value"], e1["value"]
-            if name == "mapper_rectangular" and (self._rect_tie(v0["src"], case["mesh"])
-                                                  or self._rect_tie(v1["src"], case["mesh"])):
-                continue  # tie band of a mesh-cell boundary: either cell is acceptable
+            if name == "mapper_rectangular":
+                tie = self._rect_tie_np if case.get("large") else self._rect_tie
+                if tie(v0["src"], case["mesh"]) or tie(v1["src"], case["mesh"]):
+                    continue  # tie band of a mesh-cell boundary: either cell is acceptable
             if k == "coord":
                 a0 = np.asarray(v0, dtype=float).reshape(-1, 2)
                 a1 = np.asarray(v1, dtype=float).reshape(-1, 2)
                 if a0.shape != a1.shape or not self._close(a0 + d, a1):
-                    return False, f"{name}: coordinates at origin o+d are not those at o translated by d"
+                    where = ""
+                    if a0.shape == a1.shape and a0.size:
+                        i = int(np.argmax(np.abs(a1 - (a0 + d)).max(axis=1)))
+                        where = (f" (row {i} of {len(a0)}: {a0[i].tolist()} at o, {a1[i].tolist()} at o+d, moved by "
+                                 f"{(a1[i] - a0[i]).tolist()} instead of d={np.asarray(d).tolist()})")
+                    return False, f"{name}: coordinates at origin o+d are not those at o translated by d" + where
             elif k == "extent":
                 if not self._close(np.asarray(v0) + np.array([d[1], d[1], d[0], d[0]]), v1):
                     return False, f"{name}: extent not translated by d"
@@ -482,6 +1711,10 @@ class C12(PropertyCheck):
                      "grid_pixel_indexes", "grid_pixel_centres", "grid_pixels", "radial_projected"]
 
     def model_requests(self, case, impl_obs):
+        if case.get("group") == "history":
+            return self._history_requests(case, impl_obs)
+        if case.get("large"):
+            return []  # large stream: judged by the oracle alone (see `_summarise_large`)
         if "at_o" not in impl_obs:
             return []
         if case["group"] == "mapper":
@@ -524,6 +1757,8 @@ class C12(PropertyCheck):
         return reqs
 
     def model_obs(self, case, responses):
+        if case.get("group") == "history":
+            return {"steps": responses}
         for r in responses:
             if "err" in r:
                 return {"err": r["err"]}
@@ -534,6 +1769,8 @@ class C12(PropertyCheck):
         return out
 
     def compare(self, case, impl_obs, model_obs, cmp):
+        if case.get("group") == "history":
+            return self._history_compare(case, impl_obs, model_obs, cmp)
         if "err" in model_obs:
             return f"model error {model_obs}"
         if case["group"] == "mapper":
@@ -574,14 +1811,52 @@ class C12(PropertyCheck):
                              "C12.radial_projected_covariant"],
                 "mapper": ["C12.overlay_mesh_covariant", "C12.rectangular_mapper_table_invariant",
                            "C12.delaunay_mapper_tables_invariant"],
-                "dataset": ["C12.dataset_records_commute"]}.get(case["group"], ["C12.*"])
+                "dataset": ["C12.dataset_records_commute"],
+                "history": ["C12.grid_from_mask_covariant", "C12.over_sampled_grid_covariant",
+                            "C12.gathered_grid_covariant", "C12.padded_grid_covariant", "C12.mask_centre_covariant",
+                            "C12.zoom_mask_covariant", "C12.resized_grid_covariant",
+                            "C12.pixel_indices_invariant", "C12.dataset_records_commute"]}.get(case["group"], ["C12.*"])
 
     def nontrivial(self, case, obs):
+        if case.get("group") == "history":
+            return len(case.get("ops", [])) >= 2
+        if case.get("large"):  # recipe masks always have masked and unmasked pixels
+            return Fraction(case["shift"][0]) != 0 or Fraction(case["shift"][1]) != 0
         bits = case.get("mask", {}).get("bits", "01")
         return "0" in bits and "1" in bits and (Fraction(case["shift"][0]) != 0 or Fraction(case["shift"][1]) != 0)
 
+    def shrink(self, case):
+        """histories only: fewer operations, fewer observed entries, fewer shared objects (large recipes and the
+        ordinary cases are reported as generated)"""
+        if case.get("group") != "history" or case.get("script") == "hilbert_shared":
+            return
+        ops = case["ops"]
+        n_obs = sum(1 for o in ops if o[0] == "obs")
+        for i, op in enumerate(ops):
+            if op[0] in ("decoy", "fault", "clone") or (op[0] == "obs" and n_obs > 1):
+                c = dict(case)
+                c["ops"] = ops[:i] + ops[i + 1:]
+                yield c
+        for i, op in enumerate(ops):
+            if op[0] == "obs" and len(op[2]) > 1:
+                half = len(op[2]) // 2
+                for part in (op[2][:half], op[2][half:]):
+                    c = dict(case)
+                    c["ops"] = ops[:i] + [["obs", op[1], part]] + ops[i + 1:]
+                    yield c
+        for s_ in case.get("share", []):
+            c = dict(case)
+            c["share"] = [x for x in case["share"] if x != s_]
+            yield c
+        if case.get("ro_arrays"):
+            c = dict(case)
+            c["ro_arrays"] = False
+            yield c
+
     def sample_view(self, case):
-        return {k: v for k, v in case.items()}
+        # in-memory expansions of a large recipe (`_mask_np`, `_points_np`, ...) never reach evidence / replays:
+        # the recipe itself is the (complete, replayable) input
+        return {k: v for k, v in case.items() if not k.startswith("_")}
 
 
 CHECK = C12()
